@@ -192,6 +192,22 @@ def _variants(kind, c, anchor, ddesc, n, fmt):
         out.append(("respelled_interval", dict(base, dur=alt)))
     if not recur.is_nominal(ddesc) and fmt == 3:
         out.append(("other_notation", dict(base, fmt=1)))
+    # a different interval that spans the same start and end (only the interval component differs):
+    # e.g. R2/2016-01-31/P1M vs R2/2016-01-31/P29D
+    if n is not None and n >= 2 and not recur.is_zero(ddesc):
+        try:
+            r = recur.build(impl, base)[0]
+            if r.start_point is not None and r.end_point is not None:
+                span = impl.alpha_duration(r.end_point - r.start_point)[2]
+                if span > 0 and span % (n - 1) == 0 and (span // (n - 1)).denominator == 1:
+                    per = int(span // (n - 1))
+                    alt2 = {"seconds": per} if recur.is_nominal(ddesc) else None
+                    if alt2 is None and ddesc == {"days": 366}:
+                        alt2 = None
+                    if alt2:
+                        out.append(("same_span_other_interval", dict(base, dur=alt2)))
+        except Exception:
+            pass
     return out
 
 
